@@ -347,7 +347,8 @@ def run_history(st: Stats, case):
     inp = dict(case=[a_opts1, a_opts2, form, clash, damage, refs] + ([hist] if hist else []))
     st.evaluations += 1
     st.nontrivial.add(core.digest(inp))
-    AOPT = {"default": {}, "private": dict(display=["public", "private", "protected"]), "nosrc": dict(incl_src=False), "alpha": dict(sort="alpha"), "graph": dict(graph=True)}
+    AOPT = {"default": {}, "private": dict(display=["public", "private", "protected"]), "nosrc": dict(incl_src=False), "alpha": dict(sort="alpha"), "graph": dict(graph=True),
+            "hideundoc": dict(hide_undoc=True)}
     try:
         a_root = root / "A"
         a = fordrun.build(A_SRC, dict(externalize=True, project="alib", **AOPT[a_opts1]), stage="write", root=a_root, keep=True)
@@ -664,7 +665,7 @@ def gen_cases(tier):
             for b_url in (None, "https://b.example.org/docs"):
                 yield ("two-libs", form, order, b_url)
     forms = ["relative", "absolute", "http", "http-slash"]
-    for a1 in ("default", "private", "nosrc", "alpha"):
+    for a1 in ("default", "private", "nosrc", "alpha", "hideundoc"):
         for form in forms:
             for refs in ("none", "plain", "ext"):
                 yield (a1, None, form, None, None, refs)
